@@ -52,6 +52,7 @@ Example:
 """
 
 from collections import defaultdict
+from copy import deepcopy
 from dataclasses import _MISSING_TYPE
 from dataclasses import asdict
 from dataclasses import dataclass
@@ -676,6 +677,9 @@ class RelationSchema:
         Returns:
             RelationSchema: A new RelationSchema object.
         """
+        # the schema owns copies of the lists held by the dictionary: editing the restored
+        # schema must not change the dictionary, nor a schema restored from it later
+        dic = deepcopy(dic)
         schema = RelationSchema(
             name=dic["name"],
             aliases=dic.get("aliases", []),
